@@ -580,7 +580,9 @@ Outcome run_plan(const PlanT &p, int strategy, const std::vector<int> &seq_order
         { LibScope l; if (sodium_init() != 0) { fprintf(stderr, "pre-init failed\n"); _exit(3); } }
         ENV.in_init[MAXTHREADS] = false;
     }
+    RT.est_steps = 80 * (uint64_t) p.nthreads + 250 * (uint64_t) p.ops.size() + 50; // where PCT places its priority-change points
     RT.reset(p.nthreads, p.sched_seed, strategy, p.pct_depth);
+    RT.mark = ENV.in_init;
     RT.seq_order = seq_order;
     RT.detect_races = detect;
     simrt::run_threads(p.nthreads, thread_body);
@@ -730,6 +732,9 @@ struct C19 {
         res.count(std::string("knob.preinit=") + (p.preinit ? "yes" : "no"));
         res.count(std::string("knob.cpu_disable=") + cpu_mask_name((unsigned) p.pk.at("cpu_disable").u64()));
         if (RT.preemptions) res.count("fault.preemption", RT.preemptions);
+        if (RT.counters.count("probe.lock_contended")) res.count("fault.thread_blocked_on_library_lock", RT.counters["probe.lock_contended"]);
+        if (RT.counters.count("probe.spin_contended")) res.count("fault.thread_spinning_on_library_lock", RT.counters["probe.spin_contended"]);
+        if (RT.preempt_marked) res.count("fault.preempted_inside_sodium_init", RT.preempt_marked);
 
         int winner = got.winner;
         if (write(to_child[1], &winner, sizeof winner) != (ssize_t) sizeof winner) {}
